@@ -7,6 +7,7 @@
 #define MYTH_CONFIG_H_
 
 #include "config.h"
+#include "myth_verif.h"
 
 //Enable debug
 //#define MYTH_DEBUG 1
@@ -45,7 +46,9 @@
 #define MYTH_SPLIT_STACK_DESC 1
 
 //Runqueue length
+#ifndef INITIAL_QUEUE_SIZE
 #define INITIAL_QUEUE_SIZE (65536*2)
+#endif
 
 //Wrap and multipelx I/O functions
 #define MYTH_WRAP_SOCKIO 0
